@@ -114,7 +114,9 @@ func init() {
 			nFlush, nCut := 0, 0
 			// at entry the buffer is empty and no table has been written
 			var init pathsim.State
-			init.V[2], init.V[3], init.V[4] = pathsim.True, pathsim.False, pathsim.True
+			init.V[2], init.V[3] = pathsim.True, pathsim.False
+			init.V[4], init.V[5], init.V[6] = pathsim.True, pathsim.True, pathsim.True
+			boundAtom := map[string]int{}
 			spec := &pathsim.Spec{Init: init}
 			spec.Atom = func(c *pathsim.Ctx, e ast.Expr) (int, bool, bool) {
 				if id, ok := ast.Unparen(e).(*ast.Ident); ok && okVars[c.Info.Uses[id]] {
@@ -127,11 +129,21 @@ func init() {
 				}
 				// atom 4: buffer.size < <bound> — known true while the buffer is empty (bounds are positive)
 				if b, ok := ast.Unparen(e).(*ast.BinaryExpr); ok && prog.SelField(c.Info, b.X) == size {
-					switch b.Op {
-					case token.LSS:
-						return 4, false, true
-					case token.GEQ:
-						return 4, true, true
+					// one atom per bound (size < target and size < maximum are different facts)
+					key := types.ExprString(b.Y)
+					idx, has := boundAtom[key]
+					if !has && len(boundAtom) < 3 {
+						idx = 4 + len(boundAtom)
+						boundAtom[key] = idx
+						has = true
+					}
+					if has {
+						switch b.Op {
+						case token.LSS:
+							return idx, false, true
+						case token.GEQ:
+							return idx, true, true
+						}
 					}
 				}
 				// atom 2: the buffer is empty (len(buffer.entries) == 0 / buffer.size == 0);
@@ -184,7 +196,7 @@ func init() {
 					case ev.Callee == types.Object(add):
 						s.A &^= wroteAll
 						s.A |= sinceCut
-						s.V[2], s.V[4] = pathsim.False, pathsim.Unknown
+						s.V[2], s.V[4], s.V[5], s.V[6] = pathsim.False, pathsim.Unknown, pathsim.Unknown, pathsim.Unknown
 						if len(ev.Call.Args) == 1 && entryVars[prog.IdentObj(c.Info, ev.Call.Args[0])] {
 							if s.V[0] == pathsim.False {
 								c.Violate(ev.Pos, "[add-after-end] an entry is added after the input reported its end (the zero entry)")
@@ -205,9 +217,9 @@ func init() {
 						s.A &^= fresh | atSet | szSet
 						// what stays behind: the entries added after the cut
 						if s.A&sinceCut != 0 {
-							s.V[2], s.V[4] = pathsim.False, pathsim.Unknown
+							s.V[2], s.V[4], s.V[5], s.V[6] = pathsim.False, pathsim.Unknown, pathsim.Unknown, pathsim.Unknown
 						} else {
-							s.V[2], s.V[4] = pathsim.True, pathsim.True
+							s.V[2], s.V[4], s.V[5], s.V[6] = pathsim.True, pathsim.True, pathsim.True, pathsim.True
 						}
 						return []pathsim.State{s}
 					}
